@@ -405,16 +405,21 @@ func Verif_C05_TLSF_Search(cfg int) {
 	m := NewTLSFBlockMetadata(1, nullGran{})
 	m.Init(B)
 	s := &tlsfState{m: m, B: B, prop: pC05}
-	if cfg/10 == 2 {
+	if cfg/10 == 2 || cfg/10 == 3 {
 		// bucket-boundary recipe: two holes of any size up to 300 bytes separated by live allocations, a small
 		// trailing free block; covers every combination of free-list buckets for hole and request sizes
-		s.allocRange("hole1", 1, 300)
+		// (cfg/10 == 3: lighter variant for the quick tier, holes of 129..256 bytes, i.e. the two upper small buckets)
+		lo, hi, tailMax := 1, 300, 200
+		if cfg/10 == 3 {
+			lo, hi, tailMax = 129, 256, 128
+		}
+		s.allocRange("hole1", lo, hi)
 		s.allocRange("sep1", 16, 16)
-		s.allocRange("hole2", 1, 300)
+		s.allocRange("hole2", lo, hi)
 		s.allocRange("sep2", 16, 16)
 		tail := verifNondetInt("tailFree")
 		verifAssume(tail >= 0)
-		verifAssume(tail <= 200)
+		verifAssume(tail <= tailMax)
 		rest := s.m.SumFreeSize() - tail
 		verifAssume(rest >= 1)
 		s.allocRange2(rest)
@@ -439,12 +444,16 @@ func Verif_C05_TLSF_Search(cfg int) {
 	size := verifNondetInt("reqSize")
 	verifAssume(size >= 1)
 	verifAssume(size <= 2*B)
+	if cfg/10 == 3 {
+		verifAssume(size >= 129)
+		verifAssume(size <= 256)
+	}
 	align := 1
-	if cfg/10 != 2 {
+	if cfg/10 < 2 {
 		align = pow2("reqAlignLog", 6)
 	}
 	strategy := symStrategy("reqStrategy")
-	bounded := cfg/10 != 2 && verifChoice("bounded", 2) == 1
+	bounded := cfg/10 < 2 && verifChoice("bounded", 2) == 1
 	maxOffset := maxI
 	if bounded {
 		maxOffset = verifNondetInt("maxOffset")
